@@ -77,7 +77,9 @@ XRange(pa) == IF xM(pa) THEN ANYC
    defect of the implementation that is recorded in /verif/known_findings.json; a failing case is
    attributed to it only if the specification WITH the deviation reproduces every observation.
      "LtMajorNoDashZero"  `<M`, `<M.x`, `<M.x.x` desugar to `<M.0.0` instead of `<M.0.0-0`
-                          (src/range.rs primitive(): (LessThan, Partial{minor: None, ..}) arm) *)
+                          (src/range.rs primitive(): (LessThan, Partial{minor: None, ..}) arm)
+     "CaretZeroNoLowerBound"  `^0`, `^0.x`, `^0.x.x` desugar to `<1.0.0-0` without the `>=0.0.0`
+                          (src/range.rs caret(): Partial{major: Some(0), minor: None, ..} arm) *)
 DesugarOpD(op, pa, dev) ==
   CASE op \in {"", "="} -> IF xp(pa) THEN XRange(pa) ELSE << Cmp("=", Full(pa)) >>
     [] op = ">"  -> IF xM(pa) THEN NONEC
@@ -100,7 +102,8 @@ DesugarOpD(op, pa, dev) ==
     [] op \in {"~", "~>"} -> IF xp(pa) THEN XRange(pa)
                     ELSE << Cmp(">=", Full(pa)), Cmp("<", Vz0(ND(pa.M), NumSucc(ND(pa.m)), Zero)) >>
     [] op = "^"  -> IF xM(pa) THEN ANYC
-                    ELSE IF xm(pa) THEN XRange(pa)
+                    ELSE IF xm(pa) THEN (IF "CaretZeroNoLowerBound" \in dev /\ ND(pa.M) = Zero
+                                         THEN << Cmp("<", Vz0(NumSucc(Zero), Zero, Zero)) >> ELSE XRange(pa))
                     ELSE IF xp(pa) THEN (IF ND(pa.M) = Zero THEN XRange(pa)
                                          ELSE << Cmp(">=", Vz(ND(pa.M), ND(pa.m), Zero)), Cmp("<", Vz0(NumSucc(ND(pa.M)), Zero, Zero)) >>)
                     ELSE IF ND(pa.M) # Zero THEN << Cmp(">=", Full(pa)), Cmp("<", Vz0(NumSucc(ND(pa.M)), Zero, Zero)) >>
@@ -139,7 +142,10 @@ MeansAltD(a, v, dev) == HasValid(a) /\ SatList(DesugarAltD(a, dev), v)
 MeansD(r, v, dev) == \E i \in 1..Len(r.alts) : MeansAltD(r.alts[i], v, dev)
 MeansAlt(a, v) == MeansAltD(a, v, {})
 Means(r, v) == MeansD(r, v, {})
-KnownDeviations == {"LtMajorNoDashZero"}
+KnownDeviations == {"LtMajorNoDashZero", "CaretZeroNoLowerBound"}
+DevName(S) == IF S = {"LtMajorNoDashZero"} THEN "LtMajorNoDashZero"
+              ELSE IF S = {"CaretZeroNoLowerBound"} THEN "CaretZeroNoLowerBound"
+              ELSE "CaretZeroNoLowerBound+LtMajorNoDashZero"
 
 \* ---------------------------------------------------------------- the crate's representation: one interval per alternative
 IvOf(c) == CASE c.op = "="  -> Iv(Inc(c.v), Inc(c.v))
@@ -255,8 +261,10 @@ JRParse(e) ==
             \* only versions of the quantifier: components within MAX_SAFE_INTEGER
             LET O == SelectSeq(e.obs, LAMBDA o : WfVer(o.v)) IN
                  (IF \A k \in Idx(O) : O[k].r = Means(r, O[k].v) THEN {}
-                  ELSE LET devs == {d \in KnownDeviations : \A k \in Idx(O) : O[k].r = MeansD(r, O[k].v, {d})} IN
-                       IF devs = {} THEN {"C01:satisfies"} ELSE {"C01:satisfies@" \o d : d \in devs})
+                  ELSE \* does the specification with some named deviation(s) reproduce every observation?
+                       LET devs == {S \in (SUBSET KnownDeviations) \ {{}} : \A k \in Idx(O) : O[k].r = MeansD(r, O[k].v, S)}
+                           least == {S \in devs : \A T \in devs : Cardinality(S) <= Cardinality(T)} IN
+                       IF devs = {} THEN {"C01:satisfies"} ELSE {"C01:satisfies@" \o DevName(S) : S \in least})
             \cup Chk(\A k \in Idx(O) : O[k].vr = O[k].r, "C01:version-satisfies-agrees")
             \cup Chk(~NoValid(r), "C01:accepted-without-valid-comparator")
             \cup (IF Len(r.alts) = 1 /\ Len(e.val) <= 1 THEN
